@@ -29,7 +29,35 @@ def generate(tier, seed):
     n = 40 if tier == "quick" else 3000
     for k in range(n):
         cases.append({"kind": "subset", "seed": "%d:sub:%d" % (seed, k), "cost": 6})
+    # far more bases than acids (or the reverse): the charge curve crosses zero above pH 14 (below pH 0)
+    for k in range(6 if tier == "quick" else 120):
+        cases.append({"kind": "lopsided", "seed": "%d:lop:%d" % (seed, k), "cost": 12})
     return cases
+
+
+def lopsided_structure(rng):
+    """One acid and 40-70 arginines (or one base and many aspartates), single residues 25 A apart: the charge
+    curve crosses zero beyond the usual pH range, where only a window that reaches out there finds it."""
+    from .. import pdbio, sources
+    many, one = rng.choice((("ARG", "ASP"), ("ARG", "GLU"), ("ASP", "LYS"), ("ARG", "TYR")))
+    n = rng.randrange(40, 71)
+    chains = "ABCDEFGHIJKLMNOPQRSTUVWXYZabcdefghijklmnopqrstuvwxyz0123456789"
+    out = []
+    k = 0
+    for resn in [one] + [many] * n:
+        res = sources.whole_residue(resn, {"ARG": "CZ", "ASP": "CG", "GLU": "CD", "LYS": "NZ", "TYR": "OH"}[resn])
+        ca = [a for a in res if a.aname() == "CA"][0]
+        gx, gy, gz = k % 5, (k // 5) % 5, k // 25
+        sh = (gx * 25000 - ca.x, gy * 25000 - ca.y, gz * 25000 - ca.z)
+        if out:
+            out.append(pdbio.raw("TER"))
+        for a in res:
+            a = a.copy()
+            a.chain, a.resnum, a.icode = chains[k % len(chains)], 10 + k // len(chains), " "
+            a.x, a.y, a.z = a.x + sh[0], a.y + sh[1], a.z + sh[2]
+            out.append(a)
+        k += 1
+    return out, "lopsided:%s x %d + %s" % (many, n, one)
 
 
 def setup(tier):
@@ -121,6 +149,9 @@ def run_case(case, tier):
             from .. import multiconf
             recs, _d = multiconf.build(rng, base=recs)
             mode = "multi-conformation"
+    elif case["kind"] == "lopsided":
+        recs, mode = lopsided_structure(rng)
+        classes.append("lopsided")
     else:
         recs, mode = subset_structure(rng)
     grid = random_grid(rng) if rng.random() < 0.7 else (0.0, 14.0, 0.1)
@@ -160,6 +191,8 @@ def run_case(case, tier):
         prec = rng.choice((1e-2, 1e-3, 1e-4, 1e-5, 1e-6, 0.02, 0.005, 2e-4, 0.03, 7e-3, 0.25))
         lo = rng.choice((0.0, 0.0, 2.0, -2.0, 5.0))
         hi = rng.choice((14.0, 14.0, 12.0, 16.0, 9.0))
+        if case["kind"] == "lopsided":
+            lo, hi = rng.choice(((-4.0, 18.0), (0.0, 20.0), (10.0, 18.0), (-5.0, 8.0), (-4.0, 14.0), (0.0, 18.0)))
         pi = mol.get_pi(conformation="AVR", grid=(lo, hi), precision=prec)
         before = counts.get("pi_checked", 0)
         charge.check_pi(pi, groups, lo, hi, prec, viol, counts, "api window %r precision %g" % ((lo, hi), prec))
